@@ -240,6 +240,34 @@ func TestVerifC11(t *testing.T) {
 			}
 		}
 	}
+	if run.Thorough() {
+		// T2+: call/field/operator programs inside every pair of nested containers; ordered triples of constructs
+		for _, k := range cn {
+			for _, w1 := range wraps[:8] {
+				if !mine() {
+					continue
+				}
+				for _, w2 := range wraps[:8] {
+					inner := w2.f(vfCallProgs()[k])
+					vfRename(inner, map[string]string{"DEV0": "DEVA", "DEV1": "DEVB", "TZ00": "TZ0A", "CPU0": "CPUA", "PWR0": "PWRA"})
+					c.check([][]*vfN{w1.f(inner)}, 0)
+				}
+			}
+		}
+		lc := vfLeafs("BAZ0")
+		for i := range la {
+			for _, w := range []vfWrap{wraps[0], wraps[2], wraps[1], wraps[8]} {
+				if !mine() {
+					continue
+				}
+				for j := range lb {
+					for k := range lc {
+						c.check([][]*vfN{w.f([]*vfN{vfLeafs("FOO0")[i], vfLeafs("BAR0")[j], vfLeafs("BAZ0")[k]})}, 0)
+					}
+				}
+			}
+		}
+	}
 	// T3: name form x container x nesting (containers composed twice), thorough adds all leafs
 	for _, w1 := range wraps[:8] {
 		for _, w2 := range wraps[:8] {
@@ -331,7 +359,7 @@ func TestVerifC11(t *testing.T) {
 		}
 	}
 	run.Count("rejected_by_reference_as_ill_formed", c.skipped)
-	run.Finish(true, fmt.Sprintf("T1: 20 constructs x 7 name forms x 13 containers x PkgLength encodings %v; T2: 41 call/field/operator/module-level programs x 13 containers, every ordered pair of constructs x 13 containers; T3: constructs x name forms x 8x8 nested containers; T4: 5 first tables x 7 second tables (Scope into / call into / plain) x constructs; T5: every ordered pair and triple of 7 scope/relocation blocks whose resolution needs several passes (also split over two tables)", pfs),
+	run.Finish(true, fmt.Sprintf("T1: 20 constructs x 7 name forms x 13 containers x PkgLength encodings %v; T2: 41 call/field/operator/module-level programs x 13 containers, every ordered pair of constructs x 13 containers; T3: constructs x name forms x 8x8 nested containers (thorough: all constructs; plus T2 programs in 8x8 nested containers and every ordered triple of constructs in 4 containers); T4: 5 first tables x 7 second tables (Scope into / call into / plain) x constructs; T5: every ordered pair and triple of 7 scope/relocation blocks whose resolution needs several passes (also split over two tables)", pfs),
 		"a program is distinct by its ASL rendering and non-trivial if the reference accepts it as well-formed and the parsed namespace agrees with it")
 }
 
